@@ -1114,6 +1114,12 @@ pub fn body(input: ParseString) -> ParseResult<Body> {
     match section(new_input.clone()) {
       Ok((input, sect)) => {
         //println!("Parsed section: {:#?}", sect);
+        // A section that consumed nothing (e.g. it stopped at a stray Mika
+        // section-close delimiter) would be parsed again forever.
+        if input.cursor == new_input.cursor {
+          let e = ParseError::new(input, "Unexpected character");
+          return Err(Err::Error(e));
+        }
         sections.push(sect);
         new_input = input;
       }
